@@ -1,4 +1,9 @@
-"""Property table: engines, budgets, evidence texts (DESIGN.md §0/§3)."""
+"""Property table: engines, budgets, evidence texts (DESIGN.md §0/§3).
+
+Each property lives in harness/props.d/<ID>.py which must define PROP (a dict with
+keys level, rule, assumptions, engines, and the MANIFEST texts level_text,
+level_note, technique, design_ref).  Helper gt() builds a go-test engine entry."""
+import glob, os
 
 def gt(name, pkg, test, quick, thorough, **kw):
     d = dict(name=name, kind="gotest", pkg=pkg, test=test, quick=quick, thorough=thorough)
@@ -6,18 +11,8 @@ def gt(name, pkg, test, quick, thorough, **kw):
     return d
 
 PROPS = {}
-
-PROPS["C33"] = dict(
-    level="exploration",
-    rule="exhaustive: every ordered pair of strings of length<=L (L=3 quick, 4 thorough) over the covering alphabet "
-         "{0,1,9,a,Z,.,+,~,-,:} and every triple of length<=2; random: rapid-generated version-like strings with derived "
-         "near neighbours (pairs and triples); dpkg: pairs cross-checked with dpkg --compare-versions. "
-         "Non-trivial = the two versions differ and share a non-empty common prefix; distinct by hash of the case.",
-    assumptions=["reference model = deb-version(7) ordering as implemented in the harness, itself cross-checked against dpkg in every run",
-                 "validity domain for the Debian-order claim: non-empty strings over [A-Za-z0-9.+~-] without ':'"],
-    engines=[
-        gt("exhaustive", "strutil", "TestVerifC33Exhaustive", dict(shards=1), dict(shards=16), rapid=False),
-        gt("random", "strutil", "TestVerifC33Random", dict(checks=60000, shards=1), dict(checks=400000, shards=12)),
-        gt("dpkg", "strutil", "TestVerifC33Dpkg", dict(checks=600, shards=2), dict(checks=6000, shards=8)),
-    ],
-)
+_here = os.path.dirname(os.path.abspath(__file__))
+for _f in sorted(glob.glob(os.path.join(_here, "props.d", "C*.py"))):
+    _ns = {"gt": gt, "__file__": _f}
+    exec(compile(open(_f).read(), _f, "exec"), _ns)
+    PROPS[os.path.basename(_f)[:-3]] = _ns["PROP"]
